@@ -302,6 +302,63 @@ def priv(pb, pc, a, b, c):
         if (o2[2].a, o2[2].s, o2[2]._c) != (a, 1, c if pc else 3): return False
     return True
 
+# ---- the first field of the model is optional and its external key differs from the field id (trimmed underscore / name_style / map)
+from adaptix import NameStyle
+class FO:
+    def __init__(self, from_: int = 5, page_size: int = 20, m: int = 30, *, last: int):
+        CALLS.append(("init", from_, page_size, m, last))
+        self.from_, self.page_size, self.m, self.last = from_, page_size, m, last
+FO_RECIPES = ([], [name_mapping(FO, name_style=NameStyle.CAMEL)], [name_mapping(FO, map={"from_": "f", "m": ("n", "m")})])
+FO_KEYS = ({"from_": ("from",), "page_size": ("page_size",), "m": ("m",)}, {"from_": ("from",), "page_size": ("pageSize",), "m": ("m",)},
+           {"from_": ("f",), "page_size": ("page_size",), "m": ("n", "m")})
+FO_LD = {(rc, dt): Retort(recipe=FO_RECIPES[rc], debug_trail=dt).get_loader(FO) for rc in range(3) for dt in DT_MODES}
+def first_optional(rc, p1, p2, p3, a, b, c, d):
+    rc = pick(rc, 3)
+    for dt in DT_MODES:
+        data = {"last": d}
+        if rc == 2: data["n"] = {}
+        for f, present, v in (("from_", p1, a), ("page_size", p2, b), ("m", p3, c)):
+            if present:
+                path = FO_KEYS[rc][f]
+                if len(path) == 1: data[path[0]] = v
+                else: data[path[0]][path[1]] = v
+        del CALLS[:]
+        obj = FO_LD[(rc, dt)](data)
+        if len(CALLS) != 1: return False
+        if (obj.from_, obj.page_size, obj.m, obj.last) != (a if p1 else 5, b if p2 else 20, c if p3 else 30, d): return False
+    return True
+
+# ---- distinct model classes that look alike (same name, module, fields) on ONE retort: each is built by its own constructor with its own defaults
+def _make_twin(default, tag):
+    @dataclasses.dataclass
+    class Twin:
+        a: int
+        b: Any = default
+        def __post_init__(self): CALLS.append(("post_init", tag, self.a))
+    return Twin
+TWIN_DEFAULTS = ((3, 10), (True, Decimal("1")), (0, False), ((), []), (Decimal(0), Fraction(0)))
+TWINS = []
+for _d1, _d2 in TWIN_DEFAULTS:
+    for _order in (0, 1):
+        _T1, _T2 = _make_twin(_d1, 1), (_make_twin(_d2, 2) if not isinstance(_d2, list) else _make_twin(_d1 + (1,), 2))
+        _r = Retort()
+        _lds = [_r.get_loader(_T1), _r.get_loader(_T2)] if _order == 0 else list(reversed([_r.get_loader(_T2), _r.get_loader(_T1)]))
+        TWINS.append(((_T1, _T2), _lds))
+NTW = len(TWINS)
+def twins(ti, which, present, a, b):
+    (T1, T2), lds = TWINS[pick(ti, NTW)]
+    w = 1 if which else 0
+    T, ld = (T1, T2)[w], lds[w]
+    data = {"a": a}
+    if present: data["b"] = b
+    del CALLS[:]
+    obj = ld(data)
+    if type(obj) is not T or CALLS != [("post_init", w + 1, a)]: return False
+    exp = T(a) if not present else None
+    del CALLS[:]
+    if present: return obj.b is b or obj.b == b
+    return same_default(obj.b, exp.b)
+
 # ---- default factories: fresh result for each loaded object
 @dataclasses.dataclass
 class DF:
@@ -387,6 +444,12 @@ def build(tier, seed):
               family="two defaulted fields of one model with equal but differently typed defaults (incl. container subclasses): each omitted field gets its own",
               bounds=f"models {lo}..{hi - 1} of {npk}: every ordered pair of equal values from a 24-value pool (Decimal/Fraction/int/float/bool/IntEnum/int subclass/complex 0 and 1, "
                      "NamedTuple instance vs tuple, OrderedDict / defaultdict vs dict, empty containers) x dataclass / NamedTuple / plain class; presence bits and values symbolic")
+    me.ob("first_optional_renamed", "rc: int, p1: bool, p2: bool, p3: bool, a: int, b: int, c: int, d: int", "return first_optional(rc, p1, p2, p3, a, b, c, d)",
+          pre=["0 <= rc < 3"], timeout=tmo, family="present optional fields hold the loaded value, absent ones the default, when the FIRST field is optional and its key differs from its id",
+          bounds="3 recipes (trimmed underscore, camelCase, map with a nested path) x presence bits x symbolic ints; 3 debug modes; constructor called once")
+    me.ob("look_alike_classes", "ti: int, which: bool, present: bool, a: int, b: int", "return twins(ti, which, present, a, b)", pre=["0 <= ti < NTW"], timeout=tmo,
+          family="two distinct model classes with the same name, module and fields on one retort: each loaded by its own constructor with its own defaults",
+          bounds="5 pairs of defaults (equal-looking and different) x both request orders x which class x presence bit x symbolic ints")
     me.ob("param_kinds", "pb: bool, pc: bool, pd: bool, pe: bool, a: int, b: int, c: int, d: int, e: int, f: int",
           "return pk(pb, pc, pd, pe, a, b, c, d, e, f)", timeout=tmo,
           family="end-to-end: positional-only / keyword-only parameters with skipped optionals",
